@@ -236,13 +236,13 @@ def fixed_noise(idx: ProgramIndex, rep: Report):
                 # several re-bindings: one of them bounds the value, the others only convert the same value (dtype / device)
                 bounding_defs = [d for d in defs if bounded_expr(d)]
                 others = [d for d in defs if not bounded_expr(d)]
-                if bounding_defs and all({x.id for x in ast.walk(d) if isinstance(x, ast.Name)} <= {e.id, sn} and isinstance(d, ast.Call) and isinstance(d.func, ast.Attribute) and d.func.attr in ("to", "type_as", "float", "double") for d in others):
-                    e = bounding_defs[0]
+                if bounding_defs and all(chain(d) == "%s.noise" % sn or ({x.id for x in ast.walk(d) if isinstance(x, ast.Name)} <= {e.id, sn} and isinstance(d, ast.Call) and isinstance(d.func, ast.Attribute) and d.func.attr in ("to", "type_as", "float", "double")) for d in others):
+                    e = bounding_defs[0]  # (the stored noise is bounded already: re-binding the local to it keeps the clause)
         if chain(e) == "%s.noise" % sn or bounded_expr(e):
             continue
         probs.append("returns DiagLinearOperator(%s): a noise given at call time is added as it is (0, 1e-9 or a negative value: less than settings.min_fixed_noise, or a negative variance), unlike the stored noise" % src(r.value.args[0]))
-    if k < 2:
-        raise AnalysisError("C07-3: FixedGaussianNoise.forward no longer returns the stored and the call-time noise as DiagLinearOperators (anchor)")
+    if k < 1:
+        raise AnalysisError("C07-3: FixedGaussianNoise.forward no longer returns a DiagLinearOperator (anchor)")
     rep.add("C07-3", "%s:FixedGaussianNoise.forward[noise handed out]" % F.module.name, fw.where, not probs,
             "%d diagonal noise operators: the stored (bounded) noise or a call-time noise through %s" % (k, sorted(bounding)[0] if bounding else "the clamp") if not probs else "; ".join(probs), {})
 
